@@ -191,6 +191,7 @@ class CookieProber:
         spi2, nonce2 = rb(8), rb(len(nonce))
         for tag, data, src in (('other_spi', build_init(conn_q, spi2, nonce, x), q),
                                ('other_nonce', build_init(conn_q, spi, nonce2, x), q),
+                               ('nonce_zero_extended', build_init(conn_q, spi, nonce + b'\0' * rr.choice([1, 4, 16]), x), q),
                                ('other_addr', build_init(conn_r, spi, nonce, x), r_addr)):
             if rejected(tag, data, src, must_differ=c1) is None:
                 return
